@@ -88,6 +88,9 @@ def ensure(repo=REPO, log=sys.stderr):
     """returns (factdir, tree_hash, generated: bool, seconds)"""
     t0 = time.time()
     th, nfiles = tree_hash(repo)
+    # facts also depend on the driver that wrote them
+    with open(os.path.join(VERIF, "driver", "src", "main.rs"), "rb") as fh:
+        th = th + "-" + hashlib.sha256(fh.read()).hexdigest()[:8]
     factsroot = os.path.join(CACHE, "facts")
     os.makedirs(factsroot, exist_ok=True)
     fdir = os.path.join(factsroot, th)
@@ -109,7 +112,7 @@ def ensure(repo=REPO, log=sys.stderr):
                                    repo.rstrip("/") + "/", SCRATCH + "/"])
             # the hash must describe what was copied
             th2, _ = tree_hash(SCRATCH)
-            if th2 != th:
+            if th2 != th.split("-")[0]:
                 raise RuntimeError("working tree changed while it was being copied; re-run")
             target = os.path.join(CACHE, "target")
             fp = os.path.join(target, "debug", ".fingerprint")
